@@ -48,6 +48,12 @@ SPEC = {
             "barrier on computational basis states, executed with Circuit::execute_with on QuStateRepr::vector and ::stabilizer; "
             "compared: the register after every operation (trace hook), cstate(), histogram() sorted, histogram_vec() (width <= 12), "
             "histogram_string() sorted; plus the three views on registers produced by H+measure runs (shots differ). "
+            "HISTORIES on one object created through the C interface (300 quick / 1500 thorough + the fixed x(0); measure(0,2); measure(1,0) on both "
+            "backends): execute, then a mix of reexecute (rewrites the register in place; X gates make its words differ from the run before) and "
+            "execute with the same or another shot count; after EVERY run histogram(), histogram_vec(), histogram_string() and the C interface's "
+            "circuit_histogram are queried in a generated ORDER, the string views now and then twice (so the string view has been asked for "
+            "before a reexecute and again after it): two `views` requests per run (string segment from histogram_string() / from "
+            "circuit_histogram) against the N words the register holds after THAT run, plus `nwords`. "
             "Non-trivial = completed circuit with at least one register write, view request with >= 2 keys overall, or helper call "
             "that returned; distinct = distinct request line.",
     "exhaustive": False,
